@@ -1,7 +1,7 @@
 (* C04 — no transaction sequence halts the chain; updates are always valid for CometBFT. *)
 From stdpp Require Import gmap.
 Require Import Model.Base Model.State Model.Staking Model.Slashing Model.Poa Model.App.
-Require Import proofs.Inv proofs.InvPres proofs.InvMsgs proofs.InvHistory proofs.InvComet proofs.InvQueue proofs.InvPools proofs.L1More.
+Require Import proofs.Inv proofs.InvPres proofs.InvMsgs proofs.InvHistory proofs.InvComet proofs.InvQueue proofs.InvPools proofs.InvElig proofs.InvLive proofs.L1More.
 
 (* after every block of every history from every (non-negative) genesis — any number of blocks, any in-block
    order of any messages of the modelled alphabet, any downtime pattern, any time steps — the chain invariant
@@ -48,6 +48,16 @@ Proof. exact history_no_queue_halt. Qed.
 Theorem C04_endblocker_never_fails : forall g bs e,
   wf_genesis g -> w_halted (run_world (init_world g) bs) <> Some (HEndBlock e).
 Proof. exact history_endblock_never_halts. Qed.
+
+(* never an empty resulting set through transactions: if each block's BeginBlock (downtime jailing — the environment)
+   leaves at least one validator that is not jailed and has power, then whatever the blocks' transactions do — remove,
+   re-power, lower the cap, unjail, in any order and number — CometBFT is never asked to adopt an empty set (4).
+   The hypotheses are the environment's: a positive genesis cap, max_validators fields that are unsigned (the wire
+   type), somebody left after downtime jailing; they are stated block by block against the state the block meets *)
+Theorem C04_transactions_cannot_empty_the_set : forall g bs,
+  wf_genesis g -> 1 <= g_max_vals g -> env_ok (init_world g) bs ->
+  w_halted (run_world (init_world g) bs) <> Some (HComet 4).
+Proof. exact history_never_emptied. Qed.
 
 (* the EndBlocker's own contract, for any store satisfying the invariant and index sets of any size *)
 Theorem C04_endblocker_contract : forall c,
